@@ -6,6 +6,7 @@ import Bpmn.Driver.C15
 import Bpmn.Driver.C01
 import Bpmn.Driver.C03
 import Bpmn.Driver.C04
+import Bpmn.Driver.C12
 import Bpmn.Driver.C20
 import Bpmn.Driver.C16
 /-!
@@ -31,7 +32,7 @@ def dispatch (family : String) (params lines : List String) : CaseResult :=
   | "c04" => C04.checkEng params lines
   | "c05" => C04.checkEng params lines
   | "c05n" => C01.check params lines
-  | "c12" => C01.check params lines
+  | "c12" => C12.check params lines
   | "c20" => C20.check params lines
   | "c16" => C16.check params lines
   | _ => { bad := [s!"unknown family {family}"] }
